@@ -35,7 +35,7 @@ def run(tier):
     known = load_known(PID)
     jobs = [(run_b_job, ({'property': PID, 'scenario': c[0] if isinstance(c, tuple) else S,
                           'params': c[1] if isinstance(c, tuple) else c, 'known': known},
-                         2400 if tier == 'thorough' else 1200)) for c in configs(tier)]
+                         1800 if tier == 'thorough' else 1200)) for c in configs(tier)]
     results = run_jobs(jobs)
     return finish(
         PID, tier, 'model_checking', results, t0,
